@@ -12,7 +12,7 @@ RULE = ("All algorithm variants x 11 partition variants x boxes {[0,1], [0,1]^2,
         "(RNG answers: every split dimension / dyadic split fraction / sampled cell with <= 1 deviation, answered as fractions of the "
         "interval so that the random partitions are driven equivariantly) run in lock-step with shadow instances on affine images of "
         "the box: exact maps x+1, x-8, x+0.25, 2x, x/2, 4x, 2x+2, x+2^20 and, in dimension >= 2, the per-axis translation x+(16,-4,2) (bit-exact comparison where the partition arithmetic is dyadic, 1e-9 "
-        "otherwise) and the inexact maps 3x, x+0.1 (1e-9; not for Zooming and default-delta DOO whose decisions compare coordinates).  "
+        "otherwise) and the inexact maps 3x, x+0.1 (1e-9; not for default-delta DOO, and for Zooming only on Binary/DimensionBinary where arm and face are the same floating-point expression).  "
         "DOO with its default diameter function is shadowed by translations only.  The quick tier takes a VERIF_SEED-rotated third of "
         "the configurations for the E-full part and every configuration for the long runs.  distinct_nontrivial = executions with >= 2 distinct points.")
 ASSUMPTIONS = ["the large translation x+2^20 is judged only while the reference run's points have at most 28 fractional bits, the small translations while they have at most 44 (beyond that the image is not exactly representable)", "split fractions restricted to the dyadic menu {1/4 (default), 0, 1/2, 1-2^-20} so that exact maps stay exact",
@@ -94,9 +94,13 @@ def _mk_for(task):
             if not (coord_sensitive and not dyadic_part):
                 out.append(Shadow("x+(16,-4,2)", c2, fmap=(lambda x: [float(v) + AXIS_SHIFT[i] for i, v in enumerate(x)]),
                                   exact=dyadic_part, tol=1e-9, max_frac_bits=44))
-        if not coord_sensitive:
+        # Zooming compares an arm (a cell centre) with child faces; on Binary / DimensionBinary both are the same
+        # floating-point expression of the same bounds, so its decisions are rounding-independent and the inexact
+        # maps can be judged too.  (Default-delta DOO stays excluded: exact ties of reward+delta may break differently.)
+        zoom_ok = algo == "Zooming" and cfg["part"] in ("Binary", "DimensionBinary")
+        if not coord_sensitive or zoom_ok:
             for name, (a, b) in INEXACT_MAPS.items():
-                if name not in keep_in:
+                if name not in keep_in and not zoom_ok:
                     continue
                 c2 = copy.deepcopy(cfg)
                 c2["domain"] = [[a * lo + b, a * hi + b] for lo, hi in cfg["domain"]]
